@@ -135,3 +135,11 @@ func verifIte(c bool, a, b int) int { return VerifIte(c, a, b) }
 // VerifShard: a case split explored by parallel executor instances.
 func VerifShard(n int) int { return VerifChoice(n) }
 func verifShard(n int) int { return VerifChoice(n) }
+
+// VerifNoErr asserts err == nil; the native failure message carries the error text.
+func VerifNoErr(err error, msg string) {
+	if err != nil {
+		panic(VerifFail{msg + " [" + err.Error() + "]"})
+	}
+}
+func verifNoErr(err error, msg string) { VerifNoErr(err, msg) }
